@@ -714,4 +714,39 @@ theorem cmrPairs_getElem? (a b s : Nat) (h : s < a * b) : (cmrPairs a b)[s]? = s
       simp
 
 
+theorem mem_dedupFirst {φ : Type} [DecidableEq φ] (l : List φ) (x : φ) : x ∈ dedupFirst l ↔ x ∈ l := by
+  induction l with
+  | nil => simp [dedupFirst]
+  | cons y ys ih =>
+    simp only [dedupFirst, List.mem_cons, List.mem_filter, ih, decide_eq_true_eq]
+    by_cases h : x = y <;> simp [h]
+
+theorem dedupFirst_nodup {φ : Type} [DecidableEq φ] (l : List φ) : (dedupFirst l).Nodup := by
+  induction l with
+  | nil => simp [dedupFirst]
+  | cons y ys ih =>
+    simp only [dedupFirst, List.nodup_cons, List.mem_filter, decide_eq_true_eq]
+    exact ⟨fun h => h.2 rfl, ih.sublist List.filter_sublist⟩
+
+/-- a list without repetitions is left alone -/
+theorem dedupFirst_of_nodup {φ : Type} [DecidableEq φ] (l : List φ) (h : l.Nodup) : dedupFirst l = l := by
+  induction l with
+  | nil => rfl
+  | cons y ys ih =>
+    rw [List.nodup_cons] at h
+    simp only [dedupFirst, ih h.2]
+    congr 1
+    rw [List.filter_eq_self]
+    intro a ha
+    simp only [decide_eq_true_eq]
+    intro e; subst e; exact h.1 ha
+
+theorem readable_map_fst {φ : Type} (fs : List φ) (nOf : φ → Option Nat) :
+    (readable (fs.map fun f => (f, nOf f))).map (·.1) = fs.filter fun f => (nOf f).isSome := by
+  induction fs with
+  | nil => rfl
+  | cons f r ih =>
+    cases h : nOf f <;> simp [readable, h] at ih ⊢ <;> exact ih
+
+
 end DirectVerif.Dataset
